@@ -96,6 +96,8 @@ class Builder:
                  ("message", 2 if main and not self.msg_used and not self.no_cg else 0),
                  ("selfdestruct", 2 if main and not self.in_rep else 0),
                  ("nested", 4 if main and not self.in_rep else 0),
+                 # (`...` spreads into varargs efuns; a spread into a local function needs a varargs declaration and is not generated)
+                 ("spreadefun", 2), ("spreadbad", 3),
                  ("catch", 7), ("raise", 3), ("throw", 2), ("safe", 3 if main and not self.in_safe else 0), ("setcg", 2 if main and self.use_setcg and not self.no_cg else 0),
                  ("install", 2 if main and not self.use_setcg else 0), ("installbad", 2 if main and not self.use_setcg else 0), ("load", 2 if main and not self.in_rep else 0),
                  ("clone", 2 if main else 0),
@@ -226,6 +228,22 @@ class Builder:
             self.prep += pr
             stmts += st
             ops.append(op)
+        elif k == "spreadefun":
+            # a `...` spread into a varargs efun that completes: F_EXPAND_VARARGS adds to num_varargs, F_EFUNV consumes it
+            i = self.fresh()
+            stmts.append('a = ({ 1, 2 }); VL ("say s%d-" + sprintf ("%%d%%d", a...));' % i)
+            ops.append("(spread 2) (consume) (say s%d-12)" % i)
+        elif k == "spreadbad":
+            # … into a varargs efun whose FIXED argument fails the type check (raised by the instruction itself, after the
+            # spread has been counted): the count must not survive the error
+            which = rng.choice(["call_other", "sprintf"])
+            if which == "call_other":
+                stmts.append('a = ({ 1, 2, 3 }); call_other (0, "nofn", a...);')
+                ops.append("(spread 3) (consume) (craise Bad argument 1 to call_other<>, Expected: string or array or object Got: 0.)")
+            else:
+                stmts.append('a = ({ 1, 2, 3 }); s = sprintf (0, a...);')
+                ops.append("(spread 3) (consume) (craise Bad argument 1 to sprintf<>, Expected: string Got: 0.)")
+            return True
         elif k == "selfdestruct":
             # an object destructs itself and goes on executing: the frames that are unwound (or returned through) belong to a
             # destructed object
@@ -615,7 +633,8 @@ class C05(Prop):
                 "NV.C05.tie_context_fields_saved", "NV.C05.tie_every_field_saved_is_restored", "NV.C05.tie_context_globals",
                 "NV.C05.tie_frame_registers", "NV.C05.tie_frame_saved_is_restored", "NV.C05.tie_all_globals_classified",
                 "NV.C05.tie_classes_match_source", "NV.C05.tie_command_giver_stack", "NV.C05.tie_callback_handlers",
-                "NV.C05.tie_backend_shapes", "NV.C05.tie_catch_value_order", "NV.C05.tie_handler_flag", "NV.C05.tie_error_handler_slots", "NV.C05.tie_vital_destruct_order", "NV.C05.tie_error_handlers_are_leaves", "NV.C05.tie_handler_effects",
+                "NV.C05.tie_backend_shapes", "NV.C05.tie_catch_value_order", "NV.C05.tie_handler_flag", "NV.C05.tie_error_handler_slots", "NV.C05.tie_vital_destruct_order", "NV.C05.tie_error_handlers_are_leaves", "NV.C05.tie_handler_effects", "NV.C05.tie_spread_count", "NV.C05.consume_clears_spread_count", "NV.C05.tie_restore_clears_spread_count",
+                "NV.C05.restoreContext_spread",
                 "NV.C05.vital_records_before_blanking", "NV.C05.vital_nested_refused", "NV.C05.popN_fixNames", "NV.C05.vitalFinish_good", "NV.C05.tie_handler_limit_state", "NV.C05.tie_hook_globals_apart", "NV.C05.raise_sets_catch_value_after_handler",
                 "NV.C05.driver_restores", "NV.C05.model_satisfies_spec_driver",
                 "NV.C05.backend_cycle_restores", "NV.C05.model_satisfies_spec_backend", "NV.C05.restoreContext_verb", "NV.C05.restoreContext_runs_fixNames", "NV.C05.popN_unlinks_efun_contexts", "NV.C05.exec_vk", "NV.C05.execCore_vk", "NV.C05.driver_keeps_last_verb",
@@ -686,6 +705,7 @@ class C05(Prop):
                    "C locals of efuns that are live across a longjmp: inventoried by the translator (41 call-back sites, 4 with an error-handler slot), observed via ASan on 9 efuns, not proved",
                    "value-stack depths inside efuns are approximated (only the depth after recovery is observed)",
                    "the oracle clause for last_verb (qv) is proved for evaluations started outside a command (exec_vk: kept or cleared; driver_keeps_last_verb, top_keeps_last_verb); the probe / heart-beat / catch-value clauses are checked on traces",
+                   "num_varargs: observed after every evaluation (snapshot field nva; probe: array literal / local call / varargs efun first), modelled (spread / consume ops, cleared by restore_context: restoreContext_spread) - 'nva after = before' is proved at state level, not through the induction; spreads into local (varargs) functions are not generated",
                    "'names of the vital objects after = before' is an oracle clause and compared on every trace; proved at state level (restoreContext_runs_fixNames), not through the induction over all programs",
                    "the simul_efun branch of destruct_object's vital block (refused from LPC while a master exists)",
                    "the file-scope context lists of sort_array / unique_array / unique_mapping are modelled as ONE list (efunCtx; handlers unlink the head): proved at state level (popN_unlinks_efun_contexts) + witnesses + tie_handler_effects + nested efun-callback cases on the driver (ASan, by-value result); 'the list after = the list before' is not proved through the induction over all programs, the efun's by-value result is an oracle clause only",
@@ -759,6 +779,8 @@ class C05(Prop):
         out.append("/-- restore_context restores command_giver and the two guards -/\ndef restoreRestoresCgAndGuards : Bool := %s"
                    % ("true" if "command_giver = econ->save_command_giver" in rc and "restore_object_limits" in rc else "false"))
         pops = len(re.findall(r"pop_control_stack\s*\(\)", rc))
+        out.append("/-- restore_context clears the spread count: `num_varargs = 0;` -/\ndef restoreClearsSpreadCount : Bool := %s"
+                   % ("true" if pos(rc, "num_varargs = 0") >= 0 else "false"))
         out.append("/-- restore_context: number of pop_control_stack() calls -/\ndef restorePopFrameCalls : Nat := %d" % pops)
         pc = body("src/error_context.c", "pop_context")
         out.append("/-- pop_context relinks the chain and clears the error state -/\ndef popContextRelinksAndClears : Bool := %s"
@@ -1062,6 +1084,16 @@ class C05(Prop):
                 E.log("C05 translator: handler %s no longer assigns %s (the state an abandoned efun leaves behind)" % want)
         out.append("/-- handlers of T_ERROR_HANDLER slots that call back into LPC or raise an error -/\n"
                    "def errorHandlersThatCallBack : List String := %s" % lst(sorted(set(bad_handlers))))
+        # (8d) F_EFUNV: the spread count is taken and CLEARED before the argument types are checked (the check can raise an error)
+        try:
+            ei = re.sub(r"/\*.*?\*/", "", open(os.path.join(E.REPO, "src/interpret.c")).read(), flags=re.S)
+            cm = re.search(r"case\s+F_EFUNV\s*:(.*?)continue\s*;", ei, re.S)
+            blk = cm.group(1) if cm else ""
+        except OSError:
+            blk = ""
+        i_take, i_clr, i_chk = pos(blk, "+ num_varargs"), pos(blk, "num_varargs = 0"), pos(blk, "CHECK_TYPES")
+        out.append("/-- eval_instruction, F_EFUNV: `st_num_arg = … + num_varargs; num_varargs = 0;` come before the CHECK_TYPES loop -/\n"
+                   "def efunvClearsSpreadCountBeforeTypeCheck : Bool := %s" % ("true" if 0 <= i_take < i_clr < i_chk else "false"))
         # (9) destruct_object of a vital object: slot pushed and both names recorded BEFORE the name is blanked; the handler
         #     restores both names; the two by-hand back-outs restore the name and drop the slot before raising
         dob = body("src/simulate.c", "destruct_object")
@@ -1267,6 +1299,30 @@ class C05(Prop):
                     uid += 1
                     st, op, fns, gl, pr = nested_efun(uid, outer, inner, ib, iops)
                     B.append(fixed_case("b-nested-%s-in-%s-%s" % (inner, outer, how), " ".join(st), op, fns=gl + fns, prep=" ".join(pr)))
+        # `...` spreads: the interpreter's spread counter (num_varargs) after an error raised by the type check of the receiving
+        # efun, after an error in a LATER argument, in a local call; caught and uncaught
+        spreads = [("efun-typeerr", 'a = ({ 1, 2, 3 }); call_other (0, "nofn", a...);',
+                    "(spread 3) (consume) (craise Bad argument 1 to call_other<>, Expected: string or array or object Got: 0.)"),
+                   ("sprintf-typeerr", 'a = ({ 1, 2, 3 }); s = sprintf (0, a...);',
+                    "(spread 3) (consume) (craise Bad argument 1 to sprintf<>, Expected: string Got: 0.)"),
+                   ("efun-ok", 'a = ({ 1, 2 }); VL ("say x-" + sprintf ("%d%d", a...));', "(spread 2) (consume) (say x-12)"),
+                   # an error raised by a LATER argument (the compiler expands the spread after all arguments are pushed)
+                   ("later-arg-error", 'a = ({ 1, 2, 3 }); s = sprintf ("%d", a..., a[9]);', "(raisemsg *Array index out of bounds.)")]
+        # … and what the master's error handler sees (it runs BEFORE the unwinding): script 32, evaluated without fault injection
+        for name, stmt, sops in spreads[:2]:
+            for outer in (False, True):
+                B.append(fixed_case("b-handler-scratch-%s%s" % (name, "-caught" if outer else ""),
+                                    (CATCHSTMT % "sg ()") if outer else "sg ();",
+                                    ("(catch (call local t 0 0 %s)) (saycatch)" % sops) if outer else "(call local t 0 0 %s)" % sops,
+                                    fns=["void sg () { %s %s }" % (DECL, stmt)], prep="master ()->set_hscript (32);", inject="run t run"))
+        for name, stmt, sops in spreads:
+            for outer in (False, True):
+                B.append(fixed_case("b-spread-%s%s" % (name, "-caught" if outer else ""),
+                                    (CATCHSTMT % "sg ()") if outer else "sg ();",
+                                    ("(catch (call local t 0 0 %s)) (saycatch)" % sops) if outer else "(call local t 0 0 %s)" % sops,
+                                    fns=['void sf (int x, int y, int z) { error ("boom1\\n"); }',
+                                         'void sk (int x, int y, int z) { VL ("say in-sk"); }',
+                                         "void sg () { %s %s }" % (DECL, stmt)]))
         # last_verb (query_verb()): an error in a verb function must not leave it set after the command
         for name, stmt, bops in (("say", 'VL ("say x");', "(say x)"), ("raise", 'error ("boom1\\n");', "(raise boom1)"),
                                  ("throw", 'throw ("t1");', "(throw t1)")):
@@ -1309,8 +1365,8 @@ class C05(Prop):
 
     # ---- oracle self-test: the string judge must reject hand-made bad traces (one per clause) ----
     def extra_checks(self, ctx, tier, rng):
-        snap = "sp=-1 csp=-1 cg=u1 co=0 po=0 prog=0 ct=0 fp=-1 pc=null fio=0 vio=0 ctx=0 ld=0 rd=0 cgs=0 qv=0 mn=ok sn=ok"
-        probe = "caught *probe-err ; probe tp=u1 po=0 d=0 l=0 a=3,4 e=*probe-err  co=42 side in=0 hb=0"
+        snap = "sp=-1 csp=-1 cg=u1 co=0 po=0 prog=0 ct=0 fp=-1 pc=null fio=0 vio=0 ctx=0 ld=0 rd=0 cgs=0 qv=0 nva=0 mn=ok sn=ok"
+        probe = "caught *probe-err ; probe lit=2 lc=3 ve=5 tp=u1 po=0 d=0 l=0 a=3,4 e=*probe-err  co=42 side in=0 hb=0"
         head = ["base " + snap, "probe0 " + probe]
         hb1 = probe.replace("hb=0", "hb=1")     # a heart-beat case: the heart beat of t is on before every evaluation
 
@@ -1331,9 +1387,12 @@ class C05(Prop):
             ("mn", [out(["caught *x", "catch *x", "done 1"], snap.replace("mn=ok", "mn=blank"))], "restore fault mn"),
             ("sn", [out(["err *x", "fault-top"], snap.replace("sn=ok", "sn=blank"))], "restore fault sn"),
             ("probe", [out(["done 1"], pr=probe.replace("a=3,4", "a=3"))], "probe fault differs"),
+            ("nva", [out(["err *Bad argument 1 to call_other()", "fault-top"], snap.replace("nva=0", "nva=2"))], "restore fault nva before=0 after=2 (raised)"),
+            ("probe-spread", [out(["err *x", "fault-top"], pr=probe.replace("lit=2", "lit=4"))], "probe fault differs"),
             ("probe-destruct", [out(["done 1"], pr=probe.replace("d=0", "d=*Only this_object() can be destructed"))], "probe fault differs"),
             ("half-install", [out(["caught nf", "catch nf", "done 1"], pr=probe.replace("in=0", "in=1"))], "half-install"),
             ("catch-value", [out(["caught *boom1", "catch *other", "done 1"])], "catch-value"),
+            ("scratch", [out(["say handler lit=4 scratch-mismatch", "err *x", "fault-top"])], "scratch"),
             ("efun-result", [out(["caught *boom1", "catch *boom1", "say r=3,1,2 result-mismatch", "done 1"])], "efun-result"),
             ("catch-value-zero", [out(["caught *boom1", "catch 0", "done 1"])], "catch-value"),
             ("catch-value-one", [out(["caught *boom1", "catch 1", "done 1"])], "catch-value"),
